@@ -517,6 +517,28 @@ def _layout_subtrees(
                     left_info["size"].h + (subtree_spacing - trunk_height) / 2,
                 )
 
+            # Grow the subtree so that it holds a trunk wider than its children
+            if params.orientation == Orientation.VERTICAL:
+                grow_before = max(0, -trunk_pos.x)
+                grow_after = max(0, trunk_pos.x + trunk_width - state["size"].w)
+                grow_shift = Position(grow_before, 0)
+                state["size"] = Size(
+                    state["size"].w + grow_before + grow_after,
+                    state["size"].h,
+                )
+            else:
+                grow_before = max(0, -trunk_pos.y)
+                grow_after = max(0, trunk_pos.y + trunk_height - state["size"].h)
+                grow_shift = Position(0, grow_before)
+                state["size"] = Size(
+                    state["size"].w,
+                    state["size"].h + grow_before + grow_after,
+                )
+
+            state["left_pos"] += grow_shift
+            state["right_pos"] += grow_shift
+            trunk_pos += grow_shift
+
             state["trunk"] = Rect.make_from(trunk_pos, trunk_size)
             state["fork_thickness"] = fork_thickness
 
